@@ -25,6 +25,14 @@ PROPS = {
         "level_text": "Spec in Lean: Ref.foldE (value of a syntax tree, strict, left to right) and Ref.render (minimal parentheses). Machine-checked theorems about the fold's rules exactly as the property states them and about the evaluator's operator tiers (each tier accepts exactly the operators of one precedence level; nesting order OR < AND < comparison < +,- < *,/ < ^ < unary). The theorem tying the token-stream evaluator to the fold for EVERY tree (eval_render) is not yet proved for the full model; the check rests for it on the correspondence slice: all trees with 1-2 (thorough: part of 3) binary operators, all unary/binary pairings, random trees up to size 9 with and without redundant parentheses; text rendered by the Lean spec; implementation's PRINT vs model's PRINT vs the spec's fold (computed by the Lean driver).",
         "level_note": "PARTIAL proof. Trusted: Lean kernel; NumOps (IEEE arithmetic, powf, Display) parameters; hand-written model validated by sampling.",
     },
+    "C03": {
+        "what": "semantic rules of the property on the model of the real code: NEXT forgets inner loops, undefined variables read as 0/empty, implicit arrays have indices 0..10 per dimension (10 inside, 11 BAD SUBSCRIPT), fresh cells read as 0/empty",
+        "theorems": ["next_forgets_inner", "undefined_reads_default", "implicit_array_shape", "implicit_array_bounds", "fresh_cells_default"],
+        "open": ["for_enters_body (FOR never tests its limit; limit/step fixed at entry)", "next_uses_stored", "read_line_order", "refines: transcript (M.run (compile p)) = transcript (R.run p) for every well-formed program (needs a reference semantics in Lean and a per-statement simulation)"],
+        "slices": ["c03"],
+        "level_text": "Machine-checked theorems (Lean 4) about the model for the individual rules the property names (loop forgetting, defaults, implicit array bounds). The whole-program refinement against a reference semantics is NOT proved; the reference interpreter is the harness's independent interpreter over syntax trees (verif/harness/src/refint.rs) and is used as the oracle: grammar-generated structured programs are compiled to numbered text, run on the implementation, on the model (correspondence) and on the reference interpreter, comparing printed output and (error kind, line).",
+        "level_note": "PARTIAL proof; the reference interpreter is Rust code in the harness, not a Lean spec. Known finding KF-ELSE-RESUME (THEN GOSUB ... ELSE) is generated at a low rate and reported as KNOWN-FINDING.",
+    },
     "C04": {
         "what": "program store = finite map + ordered key set: both indexes agree after every edit history (invariant), an edit writes exactly its key (last writer wins, bare number deletes, failed tokenization changes nothing), LIST = stored lines ascending, `after` = least greater key for every n, RUN order = keys ascending, edits to different lines commute",
         "theorems": ["wf_empty", "get_set", "wf_set", "wf_reachable", "store_refines", "set_comm", "list_sorted", "after_least", "run_order", "submit_numbered", "submit_failed"],
